@@ -1,8 +1,33 @@
 import Ypv.Drv.Codec
-/-! Driver handler for C19 (stub: replaced by the module that models C19) -/
+import Ypv.Model.Rotate
+import Ypv.Model.Save
+/-! Driver handler for C19: key rotation over a document with the stand-in cipher, marker rule. -/
 namespace Ypv.Drv.C19
 open Lean (Json)
+open Ypv Ypv.Drv Ypv.Rotate
 
-def handle (_op : String) (_j : Json) : Except String Json := throw "C19: driver not implemented yet"
+def handle (op : String) (j : Json) : Except String Json := do
+  match op with
+  | "rotate" =>
+    let d ← nodeOfJson (← j.getObjVal? "doc")
+    let old := s2l (← getStr j "old")
+    let new := s2l (← getStr j "new")
+    let r := rotate fakeCipher old new d
+    pure (Json.mkObj [("doc", nodeToJson r.1), ("failed", Json.bool r.2.failed), ("changed", Json.bool r.2.changed),
+      ("exit", Json.num (Lean.JsonNumber.fromNat (exitOf r.2))),
+      ("encs", Json.num (Lean.JsonNumber.fromNat r.2.nonce)), ("decs", Json.num (Lean.JsonNumber.fromNat r.2.decs)),
+      ("noSecret", Json.bool (noSecret d))])
+  | "marker" =>
+    let s := s2l (← getStr j "s")
+    pure (Json.mkObj [("is", Json.bool (isEyaml s)), ("clean", Json.str (l2s (clean s)))])
+  | "cipher" =>
+    -- the stand-in cipher itself (checked against harness/tools/fake_eyaml)
+    let k := s2l (← getStr j "k")
+    let p := s2l (← getStr j "p")
+    let c := fakeEnc k 0 p
+    pure (Json.mkObj [("enc", Json.str (l2s c)),
+      ("dec", match fakeDec k c with | some x => Json.str (l2s x) | none => Json.null),
+      ("decOther", match fakeDec (k ++ ['x']) c with | some x => Json.str (l2s x) | none => Json.null)])
+  | _ => throw s!"C19: unknown op {op}"
 
 end Ypv.Drv.C19
